@@ -162,13 +162,15 @@ func cachedParse(src string) (*formula.SourceCode, error) {
 	if p, ok := parseCache[src]; ok {
 		return p, nil
 	}
-	o := safeParse([]byte(src))
+	buf := []byte(src)
+	o := safeParse(buf)
 	if o.panicked {
 		return nil, fmt.Errorf("parser panicked: %s", o.panicMsg)
 	}
 	if o.err != nil {
 		return nil, o.err
 	}
+	reuseBuffer(buf)
 	parseCache[src] = o.src
 	return o.src, nil
 }
@@ -432,6 +434,16 @@ func judgeStrFn(c StrFnCase) *eng.Fail {
 	case "regexp":
 		re, err := regexp.Compile(t)
 		if err != nil {
+			// "regexp agrees with RE2 matching": what RE2 refuses is an error here too (C03 names the
+			// invalid regular expression among the reported misuses)
+			o, perr := evalWith("regexp(s,t)", data)
+			if perr != nil || o.panicked {
+				return eng.F("C17/eval", "regexp(s,t) with t=%q: %v %s", t, perr, o.panicMsg)
+			}
+			if o.err == nil {
+				return fail("regexp(s,t) with a pattern RE2 rejects ("+err.Error()+")", o.val, "an error")
+			}
+			outcome("regexp invalid pattern")
 			return nil
 		}
 		v, f := ev("regexp(s,t)")
@@ -481,7 +493,11 @@ func allStrings(alpha []string, n int) []string {
 	return out
 }
 
-var c17Patterns = []string{"a", "^a", "a$", "^a*$", "ab", "a|b", "[ab]+", "^[ab]+$", "a.b", "^$", "", " ", "\\s", "^\\S+$", "(a)(b)", "a{2}", "a{2,}", "^.{3}$", "[A-Z]", "(?i)a", "b*a", "^(ab)*$", "中", "^.$", "[^a]", "a?b", "\\bA\\b", "a+b+", "(a|b)(a|b)", "^[^ ]*$", "ba", "aa", "A", "^A", "b$", "^ ", " $", "[ab]{4}", ".*", "a.*b"}
+var c17Patterns = []string{"a", "^a", "a$", "^a*$", "ab", "a|b", "[ab]+", "^[ab]+$", "a.b", "^$", "", " ", "\\s", "^\\S+$", "(a)(b)", "a{2}", "a{2,}", "^.{3}$", "[A-Z]", "(?i)a", "b*a", "^(ab)*$", "中", "^.$", "[^a]", "a?b", "\\bA\\b", "a+b+", "(a|b)(a|b)", "^[^ ]*$", "ba", "aa", "A", "^A", "b$", "^ ", " $", "[ab]{4}", ".*", "a.*b",
+	// patterns RE2 rejects, among them some that only an unmatched ')' before an unmatched '(' spoils
+	")(", "a)(b", "x)|(y", "a)(?i:b", "(", "a(b", "[a-", "*a", "a)", "a{2", "(?P<n>a", "\\", "a**", "(?z)a", "[[:nope:]]", "\\p{Nope}",
+	// the dot and line breaks
+	"a.b", "^.$", ".", "a.", "(?s)a.b", "(?m)^b$", "^b$"}
 
 func runC17(w *eng.W) {
 	W = w
@@ -543,6 +559,18 @@ func runC17(w *eng.W) {
 		}
 		for _, p := range c17Patterns {
 			emit(StrFnCase{Fn: "regexp", S: Bytes(s), T: Bytes(p)})
+			if len(s) <= 2 {
+				emit(StrFnCase{Fn: "regexp", S: Bytes("a\n" + s), T: Bytes(p)})
+				emit(StrFnCase{Fn: "regexp", S: Bytes(s + "\nb"), T: Bytes(p)})
+			}
+		}
+		// replacement texts that look like templates of other replace functions
+		if len(s) <= 3 {
+			for _, u := range []string{"$", "$1", "$0", "${1}", "$$", "$a", "\\1", "\\0", "&", "%s", "$&", "\\$1", "$_"} {
+				for _, t := range []string{"a", "b", " ", "ab"} {
+					emit(StrFnCase{Fn: "replace", S: Bytes(s), T: Bytes(t), U: Bytes(u)})
+				}
+			}
 		}
 		emit(StrFnCase{Fn: "maptoarr", S: Bytes(s), T: Bytes("zz")})
 	}
